@@ -322,9 +322,11 @@ STATED, NOT PROVED (outside /repo, or outside the model):
         ∀ clib, ClibContract clib → ∀ R C ≥ 2, ∀ s t,
           MinWeightPMPlanar R C t (planarDefects R C s t)
             (decode (mwpmBlossom5 toInt clib (build (planarGraphOps R C t (planarDefects R C s t)))))
-  * that `recovery_pauli.path(a, b)` is applied for the mates in the (hash) order of the returned Python `set`: the
-    model applies them in list order; the recovery is an XOR of paths, so the order is immaterial (C02), but the
-    statement "for every permutation of the mates" is not formalised here.
+  * (NOW PROVED, Props/C14/MatesOrder.lean `planar_applyMates_perm`, `toric_applyMates_perm`,
+    `toric_mwpm_recovery_perm`: `recovery_pauli.path(a, b)` is applied for the mates in the (hash) order of the returned
+    Python `set`, the model applies them in list order; the recovery is an XOR of paths, so it is the same for every
+    permutation of the mates.  The orientation of a pair is NOT immaterial for the operator — only for its coset; the
+    correction theorems hold for any minimum-weight perfect matching given as ordered pairs.)
 -/
 
 /-! ### tests on tiny instances, with the exact matcher as the oracle -/
